@@ -1,4 +1,4 @@
-#[cfg(test)]
+#[cfg(any(test, feature = "__verif"))]
 use std::cmp::Ordering;
 use std::{
     cmp,
@@ -18,12 +18,12 @@ impl RangeSet {
         Default::default()
     }
 
-    #[cfg(test)]
+    #[cfg(any(test, feature = "__verif"))]
     pub(super) fn contains(&self, x: u64) -> bool {
         self.pred(x).is_some_and(|(_, end)| end > x)
     }
 
-    #[cfg(test)]
+    #[cfg(any(test, feature = "__verif"))]
     pub(super) fn insert_one(&mut self, x: u64) -> bool {
         if let Some((start, end)) = self.pred(x) {
             match end.cmp(&x) {
@@ -100,7 +100,7 @@ impl RangeSet {
             .map(|(&x, &y)| (x, y))
     }
 
-    #[cfg(test)]
+    #[cfg(any(test, feature = "__verif"))]
     pub(super) fn remove(&mut self, x: Range<u64>) -> bool {
         if x.is_empty() {
             return false;
@@ -164,14 +164,14 @@ impl RangeSet {
         }
     }
 
-    #[cfg(test)]
+    #[cfg(any(test, feature = "__verif"))]
     pub(super) fn add(&mut self, other: &Self) {
         for (&start, &end) in &other.0 {
             self.insert(start..end);
         }
     }
 
-    #[cfg(test)]
+    #[cfg(any(test, feature = "__verif"))]
     pub(super) fn subtract(&mut self, other: &Self) {
         for (&start, &end) in &other.0 {
             self.remove(start..end);
@@ -186,12 +186,12 @@ impl RangeSet {
         self.0.first_key_value().map(|(&start, _)| start)
     }
 
-    #[cfg(test)]
+    #[cfg(any(test, feature = "__verif"))]
     pub(super) fn max(&self) -> Option<u64> {
         self.0.last_key_value().map(|(_, &end)| end - 1)
     }
 
-    #[cfg(test)]
+    #[cfg(any(test, feature = "__verif"))]
     pub(super) fn len(&self) -> usize {
         self.0.len()
     }
@@ -200,7 +200,7 @@ impl RangeSet {
         Iter(self.0.iter())
     }
 
-    #[cfg(test)]
+    #[cfg(any(test, feature = "__verif"))]
     pub(super) fn elts(&self) -> EltIter<'_> {
         EltIter {
             inner: self.0.iter(),
@@ -246,14 +246,14 @@ impl<'a> IntoIterator for &'a RangeSet {
     }
 }
 
-#[cfg(test)]
+#[cfg(any(test, feature = "__verif"))]
 pub(crate) struct EltIter<'a> {
     inner: btree_map::Iter<'a, u64, u64>,
     next: u64,
     end: u64,
 }
 
-#[cfg(test)]
+#[cfg(any(test, feature = "__verif"))]
 impl Iterator for EltIter<'_> {
     type Item = u64;
     fn next(&mut self) -> Option<u64> {
@@ -268,7 +268,7 @@ impl Iterator for EltIter<'_> {
     }
 }
 
-#[cfg(test)]
+#[cfg(any(test, feature = "__verif"))]
 impl DoubleEndedIterator for EltIter<'_> {
     fn next_back(&mut self) -> Option<u64> {
         if self.next == self.end {
